@@ -484,6 +484,7 @@ func (w *polWorld) setup() {
 	n.AddNode("proxyB", ipUpB, "proxy-b.example")
 	n.AddNode("socksS", ipSocks, "socks-s.example")
 	n.AddNode("redir", ipRedirect, "redirect.example")
+	n.AddNode("origin6", "fd00::66")
 	n.AddHostSuffix(".ok.example", ipTarget)
 	n.AddHostSuffix(".other.example", ipOther)
 	n.AddHostSuffix(".denied.example", ipDenied)
@@ -507,6 +508,7 @@ func (w *polWorld) setup() {
 		w.listenRecorder("sut-loopback", net.JoinHostPort(ip, "*"), "")
 		w.listenRecorder("sut-loopback", net.JoinHostPort(ip, "443"), "localhost")
 	}
+	w.listenRecorder("origin6", "[fd00::66]:*", "")
 	w.listenRecorder("proxyA", ipUpstream+":8080", "")
 	w.listenRecorder("proxyA", ipUpstream+":*", "")
 	w.listenRecorder("proxyB", ipUpB+":8443", "proxy-b.example")
